@@ -176,7 +176,7 @@ ParCSRMatrix* par_stencil_grid(data_t* stencil, int* grid, int dim)
             //zeros at end
             else if (idx < 0)
             {
-                current_step = step*(((last_local_row-1)/step)+1);
+                current_step = step*((last_local_row/step)+1);
 
                 //If previous boundary lies on processor
                 for (index_t k = current_step; k > first_local_row; k-=step)
